@@ -1148,7 +1148,7 @@ FAMILIES = [
 COQ_FILES = ["C12/Model.v", "C12/PaxosNode.v", "C12/PaxosSys.v", "C12/PaxosAgree.v", "C12/PaxosFull.v", "C12/PaxosDecide.v", "C12/LockModel.v", "C12/Lock.v", "C12/MultiModel.v", "C12/Multi.v", "C12/ElectionModel.v", "C12/Election.v", "C12/Props.v"]
 
 TRUSTED = [
-    "Coq 8.16.1 kernel (coqc, vm_compute for case evaluation); no native_compute; no axioms",
+    "Coq 8.16.1 kernel (coqc, vm_compute for refutation witnesses and case evaluation); no native_compute; no axioms (all 21 theorems of C12/Props.v closed under the global context)",
     "harness/props/c12.py: scenario generators, recorders (subclass of PaxosNode overriding handle_event), encoders, oracle",
     "trace replay compares private attributes _promised_ballot, _accepted_ballot, _accepted_value, _current_ballot, "
     "_proposal_futures, _phase1_responses, _phase2_responses, _proposed_values (no public accessor) with the model after every handler call",
@@ -1190,10 +1190,19 @@ def run_jobs(ctx, jobs, chunk, workers=6):
 def run(ctx):
     ctx.prove(COQ_FILES, allowed_axioms=(), trusted_base=TRUSTED)
     fams = {f.name: f for f in FAMILIES}
-    stats = run_jobs(ctx, [(fams["paxos"], ctx.n(200, 4000)), (fams["lock"], ctx.n(60, 1000)),
-                           (fams["multi"], ctx.n(100, 2000)), (fams["election"], ctx.n(30, 500))], ctx.n(34, 250), workers=8)
-    merge_stats(ctx, stats, "random schedules (per-message delays, loss, partitions, retry jitter) over 3-5 nodes and 1-4 proposals; "
-                "non-trivial = competing ballots (a nack/retry occurred or more than one proposal); distinct by JSON of the input")
+    stats = run_jobs(ctx, [(fams["paxos"], ctx.n(200, 3000)), (fams["lock"], ctx.n(60, 400)),
+                           (fams["multi"], ctx.n(100, 1500)), (fams["election"], ctx.n(30, 400))], ctx.n(34, 100), workers=8)
+    merge_stats(ctx, stats, "paxos: random / lossy / partitioned / 'ladder' / 'classic' schedules (per-message delays, loss, partitions, retry jitter) over 3-5 nodes "
+                "and 1-4 proposals, non-trivial = competing ballots (nack/retry or >1 proposal); lock: 3-40 API calls and events over 1-3 locks, "
+                "non-trivial = some waiter queued; multi: Multi-/Flexible Paxos with all intersecting (q1,q2), stable/takeover/chaos modes, "
+                "non-trivial = more than one Start or a nack; election: Bully/Ring/Randomized over 2-5 members with loss and partitions, "
+                "non-trivial = a leader was reported; distinct by JSON of the input")
+    ctx.assumptions += [
+        "single-decree Paxos liveness (single proposer, fault-free network => decided at every node) is checked by the oracle on the implementation only",
+        "Multi-/Flexible Paxos per-slot agreement and leader liveness are refuted on the faithful model (4 open findings); only apply-in-order and commit<=log are proved for them",
+        "leader-election theorem assumes one common member map at all nodes; lock and election models take times/draws as inputs",
+        "client usage modelled: propose(v) followed by start_phase1() unless the returned future is already resolved; MultiPaxosForward events are not modelled (nothing sends them)",
+    ]
     ctx.finish_obligations()
 
 
